@@ -77,8 +77,23 @@ def rand_expr(rng, depth=0):
     return ExprMem(rng.choice((I(0x1000), I(0x1004), SP + I(4), SP + I(8))), W)
 
 
+def rand_small_mem(rng):
+    """accesses of 8 / 16 / 32 bits at overlapping offsets of one base: narrow cells under wider ones, unaligned neighbours"""
+    base = rng.choice((SP, I(0x1000)))
+    off = rng.choice((4, 5, 6, 7, 8, 9, 10, 11))
+    size = rng.choice((8, 8, 16, 32))
+    cell = ExprMem(ExprOp("+", base, I(off)) if base is SP else I(0x1000 + off), size)
+    if rng.random() < 0.5:
+        # store: a slice of a register (or a constant) of the cell's width
+        src = rng.choice((A, B, D, R))[0:size] if rng.random() < 0.8 else ExprInt(rng.getrandbits(size), size)
+        return {cell: src}
+    return {rng.choice((A, B, D, R)): cell.zeroExtend(W)}
+
+
 def rand_assignblk(rng, allow_mem=True):
     k = rng.random()
+    if allow_mem and rng.random() < 0.18:
+        return rand_small_mem(rng)
     if k < 0.12:
         # swap / rotation of registers in one parallel block
         v = rng.sample([A, B, D, R], rng.choice((2, 3)))
